@@ -175,7 +175,7 @@ def real_history(args, scratch):
                 keydoc_steps[0] += 1
                 ws.fault("acquire", {"kind": "mangled-key-document", "how": ["wrong-type", "missing-member", "truncated", "trailing", "extra-member"][kd % 5]})
                 ws.fault("acquire", {"kind": "mangled-key-document", "how": ["non-hex-key", "odd-length-key", "status-201", "status-202", "status-206", "status-203"][kd % 6]})
-                ws.fault("acquire", {"kind": "mangled-key-document", "how": ["odd-length-key", "non-hex-key", "empty-guid", "guid-with-path"][kd % 4]})
+                ws.fault("acquire", {"kind": "mangled-key-document", "how": ["dot-guid", "odd-length-key", "non-hex-key", "empty-guid", "guid-with-path"][kd % 5]})
                 ws.latched = None
                 wait(lambda: ws.latched is not None, 15)
                 latched_sync()
